@@ -27,7 +27,7 @@ ReplyMutations(op) ==
     \cup (IF op \in {"get_config", "get_inflight_fd", "set_log_base", "get_queue_num", "set_device_state_fd", "check_device_state"}
           THEN {"body_invalid"} ELSE {})
     \cup (IF op = "get_config" THEN {"config_offset"} ELSE {})
-AckMutations == HeaderMutations \cup {"nack"}
+AckMutations == HeaderMutations \cup {"nack", "nack_hi"}
 
 Calls == {[op |-> "set_features", cls |-> "ok", v |-> v, rv |-> {}] : v \in {{}, {VF_PROTOCOL_FEATURES}}}
     \cup {[op |-> "set_protocol_features", cls |-> "ok", v |-> v, rv |-> {}] : v \in ApfChoices}
